@@ -63,3 +63,84 @@ def op_histogram(pairs):
             res = st['res'].split(':')[0]
             hist['res=' + res] = hist.get('res=' + res, 0) + 1
     return hist
+
+
+# ----------------------------------------------------------------------------- generic property driver
+import re  # noqa: E402
+
+import mdibmodel  # noqa: E402
+
+HEADER = ('From Coq Require Import List ZArith Bool.\nImport ListNotations.\n'
+          'From SDC Require Import Mdib.Model Mdib.Run.\nOpen Scope Z_scope.\n')
+
+
+def signature_of(prop, why, op, res):
+    """stable signature of a failing step: property clause + kind of the operation that exposed it"""
+    clause = re.sub(r"'[^']*'|\[[^\]]*\]|[0-9a-fx_.A-Za-z]*[0-9][0-9a-fx_.A-Za-z]*", '#', why)[:70].strip()
+    kinds = []
+    if op:
+        kinds.append(op['k'] + ('/' + op.get('tx', '') if op['k'] == 'state' else ''))
+        if op.get('iface') == 'entity':
+            kinds.append('entity')
+        for a in op.get('actions', []):
+            if a[0] not in kinds:
+                kinds.append(a[0])
+    return {'clause': clause, 'op': '+'.join(kinds), 'res': (res or '').split(':')[0]}
+
+
+def judge(ctx, stream, pairs, oracles, props):
+    """run the oracles; report findings that belong to `props` (first failing step of a case only: later ones
+    are usually consequences)"""
+    nfail = 0
+    for c, r in pairs:
+        allf = []
+        for orc in oracles:
+            allf += [f for f in orc(c, r)]
+        allf.sort(key=lambda f: f[1])
+        if not allf:
+            continue
+        n0 = allf[0][1]
+        for prop, n, why in allf:
+            if n != n0:
+                break
+            if prop not in props:
+                continue
+            nfail += 1
+            op = c['ops'][n] if n >= 0 else None
+            res = r['trace'][n]['res'] if n >= 0 else None
+            short = dict(c)
+            short['ops'] = c['ops'][:n + 1]
+            ctx.fail(f'{stream}: step {n} {json_short(op)} -> {why}', signature_of(prop, why, op, res),
+                     {'stream': stream, 'case': short, 'failing_step': n,
+                      'impl_trace_tail': r['trace'][max(0, n - 1):n + 1] if n >= 0 else r['init'].get('mirror0'),
+                      'oracle': {'verdict': 'fail', 'property': prop, 'clause': why}})
+    return nfail
+
+
+def json_short(x, n=160):
+    import json
+    return json.dumps(x)[:n]
+
+
+def model_correspondence(ctx, stream, pairs, mdib_files):
+    """provider model (coq/Mdib/Model.v) vs implementation on the same histories"""
+    tr = mdibmodel.Translator({f: inventory(ctx, f) for f in mdib_files})
+    cases = []
+    for c, r in pairs:
+        name, u, h, e = tr.case(c, r)
+        cases.append((f'({name}, {u}, {h})', e))
+    header = HEADER + '\n'.join(tr.init_defs.values())
+    run = "fun c => let '(m, u, h) := c in run u u m h"
+    mism, err = ctx.coq_mism(stream, header, 'trace_eqb', run, cases, shard=8, deps=['Mdib/Run.vo'])
+    if err:
+        ctx.broken('correspondence', f'{stream} (coq evaluation)', err[-1500:])
+    if mism:
+        i = mism[0]
+        c, r = pairs[i]
+        out = ctx.coq_eval(header, f'({run}) {cases[i][0]}')
+        ctx.broken('correspondence', f'{stream}: provider model vs implementation',
+                   {'disagreements': len(mism), 'first_case': c, 'expected(impl)': cases[i][1][:3000],
+                    'model': re.sub(r'\s+', ' ', out)[-3000:]})
+    ctx.cov.setdefault('distinct_initial_snapshots', 0)
+    ctx.cov['distinct_initial_snapshots'] = max(ctx.cov['distinct_initial_snapshots'], len(tr.init_defs))
+    return mism
